@@ -46,12 +46,12 @@ func init() {
 	registerRule("R28", func(c *Ctx) { c.run("R27") })
 
 	registerProp(&propSpec{ID: "C01", Level: "other",
-		Rules: []string{"R01", "R02", "R03", "R05", "R37", "R21", "R22", "R24", "R41", "R36", "R43"},
+		Rules: []string{"R01", "R02", "R03", "R05", "R37", "R21", "R22", "R24", "R41", "R36", "R43", "R10", "R19"},
 		Explain: "Static clauses of 'exact map under any history', decided on the type-checked source of every copy of the tree code (5 generated kinds + collation): " +
 			"R01 every index/slice of a caller-controlled key is dominated by the length fact it needs (so probing an absent key cannot fault on a key index); " +
 			"R02 every success outcome of Search/Delete and the value overwrite of Insert is dominated by the true edge of the full-key comparison with the stored form restoreKey returns; " +
 			"R03 on every CFG path of every Insert the set of link/relink/overwrite/size events is one of the accepted ones (nothing dropped, nothing double-counted); " +
-			"R05 the keys of each kind are prefix-free for a structural reason, which is what makes the key-exhausted edges of Insert infeasible. R21/R22/R24/R37/R41/R43 grow/shrink and add/delete of a child keep every registered child: the replacement node receives header, keys and children, capacity guards equal the array lengths, an addChild stores exactly one child and bumps the fan-out once, a size class whose deleteChild leaves holes never takes slot childrenLen, every deleteChild path vacates the slot; R36 the hand-written collation copy agrees with the compound instantiation of the template on node-layer calls, stores and position comparisons.",
+			"R05 the keys of each kind are prefix-free for a structural reason, which is what makes the key-exhausted edges of Insert infeasible. R21/R22/R24/R37/R41/R43 grow/shrink and add/delete of a child keep every registered child: the replacement node receives header, keys and children, capacity guards equal the array lengths, an addChild stores exactly one child and bumps the fan-out once, a size class whose deleteChild leaves holes never takes slot childrenLen, every deleteChild path vacates the slot; R36 the hand-written collation copy agrees with the compound instantiation of the template on node-layer calls, stores and position comparisons; R10 loops over a 256-entry byte table visit all 256 entries; R19 a search result is used as an index only when it is not the not-found value and (4-lane search) below the fill count.",
 		NotDecided: "That descent, split and merge compute the right byte positions (compressed-path arithmetic, the 10-byte inline limit), and all value-level behaviour of the SWAR/SIMD node search: these quantify over runtime values and are out of reach of a static rule."})
 	registerProp(&propSpec{ID: "C06", Level: "other",
 		Rules: []string{"R03", "R04", "R05", "R14"},
@@ -100,8 +100,8 @@ func init() {
 		Explain:    "R19 every use of a 4-lane SWAR search result as an index is under result < fill count (the search sees all four lanes, occupied or not), and deleteChild – the one unguarded user – is only called for a byte proven registered by findChild on the same reference; R09 the byte→child lookup of each size class and every inlined copy of it agree; R10 constant-range indexes fit [4]/[16]/[48]/[256]; R22 capacity guards equal the array lengths and shrink thresholds fit the smaller class; R20 each architecture sibling of the 16-lane routines (amd64 asm, arm64 asm, portable Go) makes its result depend on keys, fill count and probe byte, compares unsigned, and stores nothing but the result. R37 a class whose deleteChild leaves holes never takes slot childrenLen; R41 every deleteChild path vacates the slot; R43 every addChild path stores one child and bumps the fan-out once.",
 		NotDecided: "The SWAR/SIMD bit arithmetic (2^40 / 2^140 inputs): that insertPosNode4/16 return the sorted position and searchNode4 the first matching lane."})
 	registerProp(&propSpec{ID: "C11", Level: "other", DesignRef: "§4 C11",
-		Rules:      []string{"R06", "R07", "R21", "R22", "R23", "R03", "R04", "R24", "R37", "R41", "R43"},
-		Explain:    "R06 a reference is only ever read through the layout its tag names (120 casts under tag facts, 48 reference literals pairing pointer type and tag, pool assertions); R07 every kind switch has one arm per inner kind and a panicking default; R21 every grow/shrink copies every header field (prefixLen, childrenLen, prefix) to the replacement before releasing the old node; R22 capacity guards/thresholds are coherent with the array lengths; R23 node fields are written only by the node layer and the Insert split paths; R03/R04 the number of linked leaves moves in step with size on every path; R24 nodes are released only after the slot is relinked. R22 also: prefixLen is as wide as the leaves' key-length fields; R37/R41/R43 slot allocation, vacate-on-delete and fan-out bookkeeping of the node layer.",
+		Rules:      []string{"R06", "R07", "R21", "R22", "R23", "R03", "R04", "R24", "R37", "R41", "R43", "R10"},
+		Explain:    "R06 a reference is only ever read through the layout its tag names (120 casts under tag facts, 48 reference literals pairing pointer type and tag, pool assertions); R07 every kind switch has one arm per inner kind and a panicking default; R21 every grow/shrink copies every header field (prefixLen, childrenLen, prefix) to the replacement before releasing the old node; R22 capacity guards/thresholds are coherent with the array lengths; R23 node fields are written only by the node layer and the Insert split paths; R03/R04 the number of linked leaves moves in step with size on every path; R24 nodes are released only after the slot is relinked. R22 also: prefixLen is as wide as the leaves' key-length fields; R37/R41/R43 slot allocation, vacate-on-delete and fan-out bookkeeping of the node layer; R10 the grow/shrink loops over a byte-indexed table cover all 256 entries.",
 		NotDecided: "That prefix lengths/bytes equal the common extension of the keys below a node after split and merge (byte arithmetic), and history independence of the shape."})
 	registerProp(&propSpec{ID: "C12", Level: "other", DesignRef: "§4 C12",
 		Rules:      []string{"R24", "R25", "R30", "R06", "R14", "R42"},
